@@ -17,6 +17,7 @@
   #pragma warning( disable : 26418 26415 26440 )
 #endif
 
+#include <limits>
 #include <optional>
 #include <unordered_map>
 
@@ -279,6 +280,11 @@ bool SemanticCheck(ParserState* state, RawNode root) {
     depths.pop_back();
 
     if (depth > ParserState::MAX_TREE_DEPTH) {
+      state->OnError(ParseEID::syntax, node->token.pos.start);
+      return false;
+    }
+    // Note: children of a syntax tree node are counted and addressed by Index
+    if (size(node->children) > static_cast<size_t>(std::numeric_limits<Index>::max())) {
       state->OnError(ParseEID::syntax, node->token.pos.start);
       return false;
     }
